@@ -301,6 +301,178 @@ theorem typed_no_panic_invalid_regex_witness :
       applyBinary rx .tagged .regexMatches (.string [0x61]) (.string [0x5b]) = .ok false := by
   decide
 
+/-! ### the filter stage is stateless: a stream of contexts is decided pair by pair
+
+`filterStream rx path op ps` models ONE call of `apply_filter_with_tagged_argument_value` /
+`apply_filter_with_static_argument_value` over all the contexts `ps` of a query (each a left value
+with its right operand, `none` for `TaggedValue::NonexistentOptional`).  The statements below are
+easy *on the model*; their point is the correspondence: the harness pushes whole streams through
+one call of the real stage (`verif_hooks::apply_tagged_stream` / `apply_static_stream`) and the
+answers are diffed against `taggedStreamAnswer` / `staticStreamAnswer`, so an implementation that
+carries anything from one context to the next (a cached compiled regex, a remembered right
+operand, a counter) disagrees with a model that provably cannot. -/
+
+/-- Position-independence: the decision the stage takes for the `i`-th context of a stream is the
+per-pair decision (`applyBinary` on that context's own `(left, right)`; "pass" for a tag from a
+nonexistent `@optional` scope) of the `i`-th pair and of nothing else. -/
+theorem filterStream_get (rx : RegexEngine) (path : ArgPath) (op : BinOp) (ps : List StreamPair)
+    (i : Nat) :
+    (filterStream rx path op ps)[i]? = ps[i]?.map (pairDecision rx path op) := by
+  simp [filterStream]
+
+/-- Running one stage over `a ++ b` is running it over `a` and over `b`: nothing the stage saw in
+`a` reaches `b`. -/
+theorem filterStream_append (rx : RegexEngine) (path : ArgPath) (op : BinOp)
+    (a b : List StreamPair) :
+    filterStream rx path op (a ++ b) = filterStream rx path op a ++ filterStream rx path op b := by
+  simp [filterStream]
+
+/-- Statelessness, spelled out: whatever contexts went through the stage `before` (and whatever come
+`after`), the context `p` is decided as if it were alone. -/
+theorem filterStream_stateless (rx : RegexEngine) (path : ArgPath) (op : BinOp)
+    (before after : List StreamPair) (p : StreamPair) :
+    (filterStream rx path op (before ++ p :: after))[before.length]?
+      = some (pairDecision rx path op p) := by
+  simp [filterStream]
+
+/-- A tag from an `@optional` scope that does not exist lets the context through, whatever the
+operator and the left value ("all comparisons against it should succeed"). -/
+theorem nonexistent_optional_passes (rx : RegexEngine) (path : ArgPath) (op : BinOp) (l : Value) :
+    pairDecision rx path op (l, none) = .ok true := rfl
+
+/-- With an existing right operand the per-context decision *is* the function all the theorems
+above are about. -/
+theorem pairDecision_some (rx : RegexEngine) (path : ArgPath) (op : BinOp) (l r : Value) :
+    pairDecision rx path op (l, some r) = applyBinary rx path op l r := rfl
+
+/-- The drained answer is a list of bits exactly when every context was decided without panic, and
+then it is those decisions in order. -/
+theorem collect_ok_iff (os : List (Outcome Bool)) (bs : List Bool) :
+    collectDecisions os = .ok bs ↔ os = bs.map .ok := by
+  induction os generalizing bs with
+  | nil => cases bs <;> simp [collectDecisions]
+  | cons o rest ih =>
+    cases o with
+    | panic => cases bs <;> simp [collectDecisions]
+    | ok b =>
+      cases h : collectDecisions rest with
+      | panic =>
+        simp only [collectDecisions, h, Outcome.map]
+        constructor
+        · intro hc; cases hc
+        · intro hc
+          cases bs with
+          | nil => simp at hc
+          | cons b' bs' =>
+            simp at hc
+            have := (ih bs').mpr hc.2
+            rw [h] at this; cases this
+      | ok cs =>
+        simp only [collectDecisions, h, Outcome.map]
+        have hcs := (ih cs).mp h
+        constructor
+        · intro hc
+          cases hc
+          simp [hcs]
+        · intro hc
+          cases bs with
+          | nil => simp at hc
+          | cons b' bs' =>
+            simp at hc
+            obtain ⟨hb, hr⟩ := hc
+            have := (ih bs').mpr hr
+            rw [h] at this
+            cases this
+            subst hb
+            rfl
+
+/-- The drained answer is `panic` exactly when some context's decision panics. -/
+theorem collect_panic_iff (os : List (Outcome Bool)) :
+    collectDecisions os = .panic ↔ Outcome.panic ∈ os := by
+  induction os with
+  | nil => simp [collectDecisions]
+  | cons o rest ih =>
+    cases o with
+    | panic => simp [collectDecisions]
+    | ok b =>
+      cases h : collectDecisions rest with
+      | panic => simp [collectDecisions, h, Outcome.map, ih.mp h]
+      | ok cs =>
+        have : ¬ Outcome.panic ∈ rest := fun hm => by rw [ih.mpr hm] at h; cases h
+        simp [collectDecisions, h, Outcome.map, this]
+
+/-- The answer of `apply_tagged_stream` is `bits` iff, position by position, the per-pair decision
+is `ok` of that bit. -/
+theorem tagged_stream_ok_iff (rx : RegexEngine) (op : BinOp) (ps : List StreamPair)
+    (bits : List Bool) :
+    taggedStreamAnswer rx op ps = .ok bits ↔
+      ps.map (pairDecision rx .tagged op) = bits.map .ok :=
+  collect_ok_iff _ _
+
+/-- … and it panics iff some pair on its own panics. -/
+theorem tagged_stream_panic_iff (rx : RegexEngine) (op : BinOp) (ps : List StreamPair) :
+    taggedStreamAnswer rx op ps = .panic ↔ ∃ p ∈ ps, pairDecision rx .tagged op p = .panic := by
+  simp [taggedStreamAnswer, collect_panic_iff, filterStream]
+
+/-- Variable path: although the two regex operations compile their pattern once, before the first
+context, the drained answer of the stage over a non-empty stream (any stream, for the other
+operations) is the pointwise per-pair decision `applyBinary rx .static op l r`. -/
+theorem static_stream_eq_pairwise (rx : RegexEngine) (op : BinOp) (r : Value) (lefts : List Value)
+    (h : lefts ≠ [] ∨ op.isRegex = false) :
+    staticStreamAnswer rx op r lefts
+      = collectDecisions (filterStream rx .static op (lefts.map fun l => (l, some r))) := by
+  have hmap : ∀ f : Value → Outcome Bool,
+      (∀ l, f l = applyStatic rx op l r) →
+      collectDecisions (lefts.map f)
+        = collectDecisions (filterStream rx .static op (lefts.map fun l => (l, some r))) := by
+    intro f hf
+    have hf' : f = fun l => applyStatic rx op l r := funext hf
+    subst hf'
+    simp [filterStream, List.map_map, Function.comp_def, pairDecision, applyBinary]
+  cases op
+  case regexMatches | notRegexMatches =>
+    simp only [staticStreamAnswer]
+    cases hc : compileStaticRegex rx r with
+    | ok p =>
+      simp only [Outcome.bind]
+      apply hmap
+      intro l
+      simp [applyStatic, hc, Outcome.bind]
+    | panic =>
+      simp only [Outcome.bind]
+      cases lefts with
+      | nil => simp [BinOp.isRegex] at h
+      | cons l ls =>
+        simp [filterStream, pairDecision, applyBinary, applyStatic, hc, Outcome.bind,
+          collectDecisions]
+  all_goals
+    simp only [staticStreamAnswer]
+    exact hmap _ (fun _ => rfl)
+
+/-- The excluded case is real (F-4 again): with a pattern that does not compile the variable-path
+stage panics while it is built, even when there is no context to filter, whereas the pointwise
+reading of an empty stream is the empty answer. -/
+theorem static_stream_empty_invalid_regex_panics (rx : RegexEngine) (r : Bytes) (h : rx r = none) :
+    staticStreamAnswer rx .regexMatches (.string r) [] = .panic ∧
+      staticStreamAnswer rx .notRegexMatches (.string r) [] = .panic ∧
+      collectDecisions (filterStream rx .static .regexMatches []) = .ok [] := by
+  simp [staticStreamAnswer, compileStaticRegex, h, Outcome.bind, filterStream, collectDecisions]
+
+/-- Non-vacuity, and the shape of the seeded change C07-2 ("reuse the last compiled regex"): in one
+stream the pattern `a` (matches `a`), then the invalid pattern `(`, then a nonexistent-optional tag,
+then `a` again against `b`: the model answers match / no match / pass / no match — a stage that
+kept the compiled `a` for the invalid pattern would answer match in second place. -/
+theorem stream_stale_pattern_witness :
+    let rx : RegexEngine := fun p => if p = [0x28] then none else some fun h => h == p
+    taggedStreamAnswer rx .regexMatches
+        [(.string [0x61], some (.string [0x61])), (.string [0x61], some (.string [0x28])),
+         (.string [0x61], none), (.string [0x62], some (.string [0x61]))]
+      = .ok [true, false, true, false] ∧
+    taggedStreamAnswer rx .notRegexMatches
+        [(.string [0x61], some (.string [0x61])), (.string [0x61], some (.string [0x28]))]
+      = .ok [false, true] := by
+  decide
+
 /-! Non-vacuity: the statements apply to mixed representations beyond the signed range, to nested
 lists mixing representations, and the typing predicate has inhabitants on which nothing panics. -/
 example : lessThan (.int64 (-1)) (.uint64 18446744073709551615) = .ok true := by decide
@@ -353,3 +525,15 @@ end TF.C07
 #print axioms TF.C07.typed_no_panic_partial
 #print axioms TF.C07.typed_no_panic_list_ordering_witness
 #print axioms TF.C07.typed_no_panic_invalid_regex_witness
+#print axioms TF.C07.filterStream_get
+#print axioms TF.C07.filterStream_append
+#print axioms TF.C07.filterStream_stateless
+#print axioms TF.C07.nonexistent_optional_passes
+#print axioms TF.C07.pairDecision_some
+#print axioms TF.C07.collect_ok_iff
+#print axioms TF.C07.collect_panic_iff
+#print axioms TF.C07.tagged_stream_ok_iff
+#print axioms TF.C07.tagged_stream_panic_iff
+#print axioms TF.C07.static_stream_eq_pairwise
+#print axioms TF.C07.static_stream_empty_invalid_regex_panics
+#print axioms TF.C07.stream_stale_pattern_witness
